@@ -44,7 +44,7 @@ def gen_op(kind, rng, local):
             return rng.choice([('pop', [], None) if n == 0 else ('pop', [n + 3], None), ('__getitem__', [n + 1], None), ('remove', ['missing'], None),
                                ('index', ['missing'], None), ('__delitem__', [n], None), ('insert', [], None), ('__setitem__', [n + 2, 1], None), ('sort', [], None)])
         return rng.choice([('append', [a()], None), ('append', [a()], None), ('extend', [[a(), a()]], None), ('insert', [rng.randrange(-1, n + 1), a()], None),
-                           ('__len__', [], None), ('count', [a()], None), ('__contains__', [a()], None), ('reverse', [], None),
+                           ('__len__', [], None), ('count', [a()], None), ('__contains__', [a()], None), ('reverse', [], None), ('@iter', [], None), ('@str', [], None),
                            ('pop', [], None) if n else ('__len__', [], None), ('__getitem__', [rng.randrange(n)], None) if n else ('__len__', [], None),
                            ('__setitem__', [rng.randrange(n), a()], None) if n else ('append', [a()], None), ('__mul__', [2], None), ('__add__', [[a()]], None),
                            ('@iadd', [[a()]], None), ('__imul__', [2], None) if n < 50 else ('__len__', [], None)])
@@ -56,7 +56,7 @@ def gen_op(kind, rng, local):
             return rng.choice([('__getitem__', ['missing'], None), ('pop', ['missing'], None), ('__delitem__', ['missing'], None), ('popitem', [], None) if not keys else ('__getitem__', ['nope'], None),
                                ('__setitem__', [[1, 2], 1], None), ('update', [5], None)])
         return rng.choice([('__setitem__', [k(), a()], None), ('__setitem__', [k(), a()], None), ('get', [k()], None), ('get', [k(), 'dflt'], None), ('__len__', [], None),
-                           ('__contains__', [k()], None), ('keys', [], None), ('values', [], None), ('items', [], None), ('pop', [k(), None], None), ('setdefault', [k(), a()], None),
+                           ('__contains__', [k()], None), ('keys', [], None), ('values', [], None), ('items', [], None), ('@str', [], None), ('pop', [k(), None], None), ('setdefault', [k(), a()], None),
                            ('update', [{k(): a()}], None), ('copy', [], None), ('clear', [], None) if rng.random() < 0.2 else ('__len__', [], None),
                            ('popitem', [], None) if keys else ('__len__', [], None)])
     if kind == 'namespace':
@@ -95,6 +95,10 @@ def apply_local(local, method, args, kwargs):
         if method == '@iadd':
             local += args[0]
             return ('val', None)
+        if method == '@iter':
+            return ('val', list(iter(local)))
+        if method == '@str':
+            return ('val', repr(local))
         r = getattr(local, method)(*args, **(kwargs or {}))
         if method in ('keys', 'values', 'items'):
             r = list(r)
